@@ -27,6 +27,7 @@ func runC12(p *core.Prog, r *core.Result) {
 		"R12.3 a target's record path is work/<kind>s/<one URL-escaped component derived from package and name>",
 		"R12.4 the project's target and module tables are keyed only by printed labels ((*Label).String())",
 		"R12.6 (necessary for canonicity) every package stored in a Label is canonical by construction: a Clean/Join result, another label's package, \"\" or \"//\"",
+		"R12.8 (necessary for canonicity: Clean is idempotent) inside Clean's loop a separator is written only in front of an element: from every place a '/' is appended, every feasible path (branch conditions interpreted by the zone analysis) appends an element byte before Clean returns or appends another separator",
 		"R12.7 (parsing never crashes) every index and slice expression of package label is in range on every path, decided by a difference-bound abstract interpretation of the SSA (loop invariants by widening/narrowing, branch facts, immutable string contents, case analysis over short-circuit diamonds); sites on the fields of a lazybuf inside its methods are excepted (their safety is the caller-side invariant w <= r of Clean)",
 		"R12.5 (part of 'parsing never crashes') every string slice in package label whose bound derives from an Index*/LastIndex* result on the sliced string is in range under the established found-ness fact",
 	}
@@ -334,6 +335,9 @@ func runC12(p *core.Prog, r *core.Result) {
 
 	// ---- R12.7 every index / slice expression of package label is in range (zone abstract interpretation)
 	checkLabelBounds(p, r)
+
+	// ---- R12.8 Clean's output never ends in, or doubles, a separator
+	checkCleanSeparators(p, r)
 
 	// LoadTarget re-parses and re-prints the raw label before the lookup
 	if lt := need(p, r, "R12.4", "", "Project", "LoadTarget"); lt != nil {
@@ -1087,4 +1091,87 @@ func checkLabelBounds(p *core.Prog, r *core.Result) {
 	r.Floor("R12.7", nProved, 20, "index/slice expressions of package label proved in range")
 	r.Analysed["label_index_sites"] = n
 	r.Analysed["label_index_sites_proved"] = nProved
+}
+
+
+// checkCleanSeparators implements R12.8. In label.Clean the bytes of the result are produced by calls of the
+// lazybuf's append: the constant '/' is a separator, a byte read from the input is an element byte. Apart from the
+// two leading slashes of a rooted path (written before the loop), a separator must be followed by an element byte
+// before the function returns (no trailing slash) and before the next separator (no doubled slash) - otherwise
+// Clean(Clean(p)) != Clean(p) and two spellings of one package give two labels. Path feasibility is decided by the
+// zone analysis (e.g. "the element loop runs at least once because pkg[r] is neither '/' nor ':' here").
+func checkCleanSeparators(p *core.Prog, r *core.Result) {
+	clean := p.Func("label", "", "Clean")
+	if clean == nil {
+		r.Unk("R12.8", "anchor:label.Clean", "-", "not found")
+		return
+	}
+	isAppend := func(in ssa.Instruction) (*ssa.Call, bool) {
+		c, ok := in.(*ssa.Call)
+		if !ok {
+			return nil, false
+		}
+		cal := core.Callee(c)
+		if cal == nil || cal.Signature.Recv() == nil || !strings.Contains(cal.Signature.Recv().Type().String(), "lazybuf") || len(c.Call.Args) != 2 {
+			return nil, false
+		}
+		// the method that writes one byte: by role, the one taking a byte
+		if b, ok := c.Call.Args[1].Type().Underlying().(*types.Basic); !ok || (b.Kind() != types.Byte && b.Kind() != types.Uint8) {
+			return nil, false
+		}
+		return c, true
+	}
+	isSep := func(in ssa.Instruction) bool {
+		c, ok := isAppend(in)
+		if !ok {
+			return false
+		}
+		k, isConst := core.ConstInt(c.Call.Args[1])
+		return isConst && k == '/'
+	}
+	isElem := func(in ssa.Instruction) bool {
+		c, ok := isAppend(in)
+		if !ok {
+			return false
+		}
+		_, isConst := c.Call.Args[1].(*ssa.Const)
+		return !isConst
+	}
+	isEnd := func(in ssa.Instruction) bool {
+		if ret, ok := in.(*ssa.Return); ok {
+			// successful returns only (an error return discards the buffer)
+			vals := core.RetVals(ret)
+			return len(vals) == 2 && core.IsNilConst(vals[1])
+		}
+		return isSep(in)
+	}
+	n, nElem := 0, 0
+	core.Instrs(clean, func(in ssa.Instruction) {
+		if isElem(in) {
+			nElem++
+		}
+	})
+	core.Instrs(clean, func(in ssa.Instruction) {
+		if !isSep(in) || !core.Reaches(in.Block(), in.Block(), false) {
+			return // the root slashes are written before the loop
+		}
+		n++
+		construct := fmt.Sprintf("label.Clean#separator-%d", n)
+		hits, ok := p.ZoneReach(in, isElem, isEnd)
+		if !ok {
+			r.Unk("R12.8", construct, p.InstrPos(in), "function too large for the path analysis")
+			return
+		}
+		if len(hits) == 0 {
+			r.OK("R12.8", construct, p.InstrPos(in), "every feasible path from this separator writes an element byte before the next separator or a successful return")
+			return
+		}
+		what := "a successful return"
+		if _, isRet := hits[0].(*ssa.Return); !isRet {
+			what = "another separator"
+		}
+		r.Bad("R12.8", construct, p.InstrPos(in), "after this separator, %s (%s) can be reached without any element byte in between: Clean can return a package that ends in '/' or contains '//' (e.g. for an input ending in two slashes), which is not a fixed point of Clean - the label prints differently from the equal label and re-parses to another one", what, p.InstrPos(hits[0]))
+	})
+	r.Floor("R12.8", n, 1, "separators written inside Clean's loop")
+	r.Floor("R12.8", nElem, 1, "element bytes written by Clean")
 }
